@@ -49,7 +49,9 @@ def run(tier):
         jobs = sweep.expand_jobs(inputs, ["compress"], rng)
     else:
         jobs = sweep.expand_jobs(inputs, ["compress"], rng)
-    traces, verdicts = sweep.run_jobs(ck, L, jobs, "compress")
+    # one circuit object compressed for every connectivity in turn (what it was asked before must not matter)
+    cinputs = [dict(i, codes=[0]) for i in inputs if not i.get("only_conn") and len(i["program"]) <= 60]
+    traces, verdicts = sweep.run_jobs(ck, L, jobs, "compress", sweeps=sweep.conn_sweep_jobs(cinputs, ["compress"], rng, per_n={2: 3, 3: 6, 4: 6, 5: 6, 6: 6}))
     sweep.report(ck, "C07", traces, verdicts, CLAUSES, trivial=lambda t: not any(g[2] >= 0 for g in t["program"]))
     ck.cov["max_program_length"] = max(len(t["program"]) for t in traces)
     ck.cov["programs"] = len(progs)
